@@ -368,7 +368,7 @@ func validShapes(cmd string, p pick) [][]string {
 	case "FOLLOW":
 		return [][]string{{"FOLLOW", "no", "one"}}
 	case "CLIENT":
-		return [][]string{{"CLIENT", "LIST"}, {"CLIENT", "GETNAME"}, {"CLIENT", "SETNAME", "my-name"}, {"CLIENT", "SETNAME", p.of(nasty, "n")}, {"CLIENT", "KILL", "nosuch"}, {"CLIENT", "KILL", "ID", "99999"}}
+		return [][]string{{"CLIENT", "SETNAME", "nan"}, {"CLIENT", "LIST"}, {"CLIENT", "SETNAME", "-inf"}, {"CLIENT", "LIST"}, {"CLIENT", "GETNAME"}, {"CLIENT", "SETNAME", "my-name"}, {"CLIENT", "SETNAME", p.of(nasty, "n")}, {"CLIENT", "KILL", "nosuch"}, {"CLIENT", "KILL", "ID", "99999"}}
 	case "PUBLISH":
 		return [][]string{{"PUBLISH", p.of(nasty, "c"), p.of(nasty, "m")}, {"PUBLISH", "chan1", "hello"}}
 	case "AUTH":
